@@ -85,7 +85,7 @@ type execution struct {
 	root     *qset
 	sched    string
 	fallback bool
-	rerunner bool // execute inside a one-shot reactive.Rerunner, as the HTTP handler does (Expensive fields then go through reactive.Cache)
+	rerunner bool          // execute inside a one-shot reactive.Rerunner, as the HTTP handler does (Expensive fields then go through reactive.Cache)
 	deadline time.Duration // > 0: the computation's context gets this deadline (as a makeCtx would set one)
 	done     bool
 	val      interface{}
@@ -146,7 +146,7 @@ func body(c *runner.Ctx, faults bool) {
 	nExec := 1 + c.Choose(3, "executions")
 	var execs []*execution
 	for i := 0; i < nExec; i++ {
-		g := &gen{c: c, w: w, budget: 14, nb: c.Choose(3, "non-null-field") > 0, argVars: c.Choose(3, "argument-variables") == 1, unionFrags: c.Choose(3, "union-type-fragments") == 1, grid: c.Choose(3, "list-of-lists") == 1, rootTN: true}
+		g := &gen{c: c, w: w, budget: 14, nb: c.Choose(3, "non-null-field") > 0, argVars: c.Choose(3, "argument-variables") == 1, unionFrags: c.Choose(3, "union-type-fragments") == 1, grid: c.Choose(3, "list-of-lists") == 1, rootTN: true, bareFrags: true}
 		root := g.genSet("Query", 0)
 		g.addTwins(root)
 		if c.Choose(3, "directives") == 1 {
